@@ -319,10 +319,18 @@ func (h *httpCtrl) fail(rec *httptest.ResponseRecorder) error {
 	return e
 }
 
+// previewSpellings: what the v1 routes document and accept for a dry run, and what the v2 routes accept for dryRun.
+var (
+	previewSpellings = []string{"true", "yes", "1", "TRUE", "YES", "True", "Yes"}
+	dryRunSpellings  = []string{"true", "1", "TRUE", "True"}
+	spellingTurn     int
+)
+
 func writeParamsV1(dry bool, ik string) (url.Values, map[string]string) {
 	q := url.Values{}
 	if dry {
-		q.Set("preview", "true")
+		spellingTurn++
+		q.Set("preview", previewSpellings[spellingTurn%len(previewSpellings)])
 	}
 	hd := map[string]string{}
 	if ik != "" {
@@ -340,7 +348,8 @@ type v1Transaction struct {
 func writeParams(dry bool, ik, schema string) (url.Values, map[string]string) {
 	q := url.Values{}
 	if dry {
-		q.Set("dryRun", "true")
+		spellingTurn++
+		q.Set("dryRun", dryRunSpellings[spellingTurn%len(dryRunSpellings)])
 	}
 	if schema != "" {
 		q.Set("schemaVersion", schema)
